@@ -139,7 +139,7 @@ def run(ctx):
     # find's window: starts_with on bytes[x..] compared with needle bytes
     fd = fx.body("<std::ffi::os_str::OsStr as clap_lex::ext::OsStrExt>::find")
     fms = first_match_scan(fx, fd)
-    okw = bool(fms) and any(x.is_(r"\[T\]::starts_with$") for x in fms["test_calls"]) and any(x.is_(r"str::as_bytes$") for x in fms["test_calls"])
+    okw = bool(fms) and any(x.is_(r"\[T\]::starts_with$") for x in fms["test_calls"]) and bool(tree_calls(fd, r"str::as_bytes$"))    # needle.as_bytes() may be hoisted out of the test
     res.check(okw, "R14.2", "find-window", fd.where(), "find tests bytes[x..].starts_with(needle.as_bytes())", "find no longer compares the byte window with the needle bytes")
     # Split::next: uses split_once on the remaining haystack, ends with None haystack
     sp = fx.body("<clap_lex::ext::Split as std::iter::traits::iterator::Iterator>::next")
